@@ -1,6 +1,6 @@
 """C18 — every table query on any loaded file is memory-safe.
 
-Proved (lean/ElfioVerif/Props/C18.lean; lemmas Lemmas/TableSafety{,Gnu,Ver,Swap}.lean) about
+Proved (lean/ElfioVerif/Props/C18.lean; lemmas Lemmas/TableSafety{,Gnu,Ver,Swap,Mut}.lean) about
 Model/TableQuery.lean = the query interfaces as they are after fixes/10..15, 17..21: the new guards are the generated
 expressions of Gen/SitesC18.lean (`tq_...`, translated from the patched source) in front of / inside the accessor
 families' models (Model/Symbols, Reloc, Arrange, Array, Versym; every raw access a checked read or write).
@@ -33,12 +33,46 @@ query returns `.ok _` (no fault, no fuel exhaustion = always returns):
                             concrete input - nbucket = 0, chain cycle (fuel), bloom_size = 0, nbuckets = 0, GNU chain
                             without end mark, null data (arrange, array, versym, relocation), vn_next / vd_aux outside the
                             section, name offset outside the string table - and the fixed model returns on it.
-Not proved / covered by correspondence only: sequences in which arrange / swap are followed by further queries (they
-rewrite section data, so C01's invariant "data = file bytes" no longer applies; the harness runs such sequences);
-DT_VERNEEDNUM / DT_VERDEFNUM are read in the driver by the dynamic accessor model (C12) on the section named .dynamic -
-the theorems quantify over ALL counts instead; the output values of the queries (their meaning is C09/C10/C11/C14's
-subject) are compared with the implementation's on every case.  The implementation side of memory safety is observed by
-ASan/UBSan/_GLIBCXX_ASSERTIONS and a 5 s alarm per case.
+  swap_preserves_sec / arrange_preserves_sec   the two MUTATING queries keep the domain: on Sec, Small sections (ANY
+                            header fields and contents) they return, every section they wrote to - the swapped relocation
+                            section; the arranged symbol section and every relocation section of the callback, position by
+                            position - is again Sec and Small, is the old section up to buffer CONTENTS (and sh_info of
+                            the symbol section): same size / flags / link / entsize / type / offsets / loader flags, the
+                            buffer keeps its length, no section becomes resident or non-resident.  From the byte-level
+                            models: arrange_frame (ANY run of Model/Arrange.lean's loop that returns, any callback: every
+                            write is a wrRange, which keeps the length), C10.arrange_refines with the callback invariant
+                            KeepAll, C11's setWrites shape (setWrites_ok) through Keep.
+  QInv / load_qinv          QInv o := the stream is shorter than 4 GiB and every section (resident or not, settled or not) has
+                            size < d.length and size < 2^32 when resident.  NO clause about buffer contents / file bytes.
+                            load of ANY byte string < 4 GiB establishes it (from C01.load_objInv); secGetData_qsec: get_data()
+                            against the stream keeps / establishes it without the loader invariant (a new buffer holds size
+                            bytes that WERE read + the terminator).
+  runQuery_qinv / runQueries_qinv   on an object with QInv EVERY query - arrange and swap included - returns and the
+                            object it leaves has QInv again; so does any finite sequence.
+  queries_any_seq_total     load ANY byte string < 4 GiB (eager/lazy, string/file stream, any translation table), then ANY
+                            finite sequence of queries in which mutating (arrange, swap) and read-only ones are freely
+                            interleaved, arbitrary section indices / entry indices / names / values / counts: every query
+                            returns without fault, one result per query, QInv holds at the end (so any continuation returns).
+  runQuery_hdr / runQueries_hdr / queries_any_seq_hdr   no query changes class, byte order, translation table, ELF header,
+                            segments, the number of sections, or any header field other than sh_info of any section.
+  runQuery_total / queries_total / queries_seq_total (kept) are now special cases of the above.
+  verCount_total / dynNum_qinv   the entry count the version accessors' constructors read (TQ.dynNum: C12's dynamic
+                            accessor model on the first section named .dynamic and sections[(Elf_Half)sh_link], both made
+                            resident; the driver calls exactly this function) returns on every object with QInv - also
+                            after mutating queries wrote into those sections - and keeps QInv and the header side.
+  runStep_qinv / runSteps_qinv / steps_any_seq_total   the same for EVERYTHING an op line of the protocol does with the
+                            object (C18.Step: a query | a bare get_data() | a version accessor construction): after a load
+                            of ANY byte string < 4 GiB any finite sequence of steps returns without fault, QInv holds at the
+                            end, no header field other than sh_info changed.
+What stays open (covered by correspondence only): the output VALUES of the queries (their meaning is C09/C10/C11/C14's
+subject; after arrange the hash tables are stale and lookups by name may miss - model and implementation agree on every
+case); that DT_VERNEEDNUM / DT_VERDEFNUM of the real constructor equal TQ.dynNum's value (the query theorems quantify over
+ALL counts, so safety does not depend on it); QInv's size hypothesis: inputs of 4 GiB and more (the 32-bit counters of
+arrange_local_symbols / swap_symbols / the GNU walk may wrap).  No precondition of any query's model had to be left
+unpreserved: there is no ..._partial.  The implementation side of memory safety is observed by ASan/UBSan/
+_GLIBCXX_ASSERTIONS and a 5 s alarm per case; the quick tier runs read-only queries AFTER arrange / swap on the same object
+in > 90 % of its cases (distribution labels seq:query-after-arrange / seq:query-after-swap / seq:mutation-after-mutation),
+one third of the cases with mutating and read-only queries shuffled together.
 Findings: F7 (a)-(f) reproduced on the unfixed tree (corpus/c18/*.case) and repaired by fixes/10..15, 17..21, one defect per
 patch; fixes/20 (swap_symbols over a data-less section: 32-bit loop variable vs. 64-bit count) is new.  Reloc.setGeneric
 (C11's model) was updated for fixes/21; the other accessor families' definitions remain the models of the function
@@ -55,6 +89,9 @@ THEOREMS = ["ElfioVerif.C18." + t for t in (
     "array_get_total", "versym_get_total", "verneed_get_total", "verdef_get_total", "arrange_total_any",
     "sysv_walk_total", "gnu_walk_total", "swap_symbols_total", "runQuery_total", "queries_total",
     "runQuery_inv", "runQueries_inv", "queries_seq_total", "secGetData_settled", "sec_of_loaded", "small_of_loaded",
+    "swap_preserves_sec", "arrange_preserves_sec", "arrange_frame", "secGetData_qsec", "qinv_of_objInv", "load_qinv",
+    "settle_q", "runQuery_qinv", "runQueries_qinv", "queries_any_seq_total", "runQuery_hdr", "runQueries_hdr",
+    "queries_any_seq_hdr", "verCount_total", "dynNum_qinv", "runStep_qinv", "runSteps_qinv", "steps_any_seq_total",
     "reloc_null_symtab_witness", "sysv_nbucket_zero_witness", "sysv_cycle_witness", "gnu_bloom_zero_witness",
     "gnu_nbuckets_zero_witness", "gnu_walk_oob_witness", "arrange_null_data_witness", "array_null_data_witness",
     "versym_null_data_witness", "reloc_null_data_witness", "verneed_oob_witness", "verdef_oob_witness",
@@ -70,14 +107,18 @@ RULE = ("images with .dynsym+.dynstr+.gnu.hash, .symtab+.strtab+.hash, .rela.dyn
         "vn_next/vn_aux/vd_next/vd_aux/name offsets outside the section, DT_*NUM 0/huge; elfspec.mutate on top; the "
         "bundled examples containing such tables (and mutations of them); x {eager,lazy}; every table section (and "
         "some non-table sections) queried by rel / symname / symvalue / arr32 / arr64 / versym / verneed / verdef / "
-        "arrange / swap at indices {0,1,count-1,count,count+1,2^32-1}; names: present, absent, empty. Oracle: no FAULT "
+        "arrange / swap at indices {0,1,count-1,count,count+1,2^32-1}; names: present, absent, empty; AFTER the mutating ops "
+        "the read-only queries again on every section they wrote to (by name through the stale hash tables, by value, "
+        "rel +- resolution, versym), a second arrange / swap and a query after it; 1/3 of the cases with mutating and "
+        "read-only ops shuffled. Oracle: no FAULT "
         "(sanitizer report, signal, 5 s alarm) on any op. non-trivial = the file loaded and at least one table op "
         "returned an in-range entry; distinct by md5")
 ASSUMPTIONS = ["inputs shorter than 2^32 bytes (hypothesis of arrange_total_any / queries_total: the 32-bit loop "
                "variables of arrange_local_symbols / swap_symbols do not wrap)",
                "new(nothrow) succeeds for requests <= len+1"]
 TRUSTED = ["ASan/UBSan/_GLIBCXX_ASSERTIONS and a 5 s alarm as fault detectors on the implementation side",
-           "DT_VERNEEDNUM/DT_VERDEFNUM as read by the dynamic accessor model (C12) in the driver"]
+           "DT_VERNEEDNUM/DT_VERDEFNUM: the value TQ.dynNum (C12's accessor model; proved total: dynNum_qinv) delivers is "
+           "compared with the implementation's on every case, not proved equal"]
 KEEP_FIRST = 2
 TIMEOUT_S = 5
 
@@ -486,12 +527,50 @@ def query_lines(rng, img, names, max_ops=40):
                                 f"verdef {i}", f"arrange {i}", f"symvalue {i} 0"])]
         L += ops
     if len(L) > max_ops:
-        # keep arrange ops last (they modify), sample the rest
         L = rng.sample(L, max_ops)
-    L.sort(key=lambda l: l.startswith("arrange") or l.startswith("swap"))
+    is_mut = lambda l: l.startswith("arrange") or l.startswith("swap")
+    mode = rng.choice(["tail", "tail", "mixed"])
+    if mode == "tail":
+        # read-only queries first, then the mutating ones, then queries on the sections they wrote to
+        L.sort(key=is_mut)
+    else:
+        # mutating and read-only queries freely interleaved
+        rng.shuffle(L)
+    L += after_mutation_lines(rng, secs, [l for l in L if is_mut(l)], nm)
     k = len(secs)
     L += [rng.choice([f"rel {k}", f"versym {k + 1}", f"symname 65535 {hx(b'x')}"])]
     return L
+
+
+def after_mutation_lines(rng, secs, muts, nm, max_post=14):
+    """queries on the SAME object after arrange / swap: on every section a mutating op wrote to (the arranged symbol
+    section, the relocation sections its callback rewrote, the swapped relocation section) the read-only queries
+    again (by name through the - now stale - hash tables, by value, relocation entries with and without symbol
+    resolution, versym), a second arrange / swap, and a query after that"""
+    post = []
+    for m in muts:
+        t = m.split()
+        i = int(t[1])
+        if t[0] == "arrange":
+            post += [f"symname {i} {hx(n)}" for n in [rng.choice(nm), b"no_such_symbol"]]
+            post += [f"symvalue {i} {rng.choice([0, 0x1000, 0x2000, 0x2008])}"]
+            for j, ty, link in secs:
+                if j != i and link % 65536 == i:
+                    if ty in (SHT_REL, SHT_RELA):
+                        post += [f"rel {j}", f"swap {j} {rng.choice([0, 1, 2])} {rng.choice([1, 2, 3])}", f"rel {j}"]
+                    elif ty == SHT_GNU_versym:
+                        post += [f"versym {j}"]
+            post += [f"arrange {i}", f"symname {i} {hx(rng.choice(nm))}"]
+        else:
+            post += [f"rel {i}"]
+            link = next((lk for j, ty, lk in secs if j == i), 0) % 65536
+            if any(j == link and ty in (SHT_SYMTAB, SHT_DYNSYM) for j, ty, lk in secs):
+                post += [f"arrange {link}", f"rel {i}", f"symvalue {link} 0"]
+    if len(post) > max_post:
+        # keep the order (a query after its mutation), drop a random subset
+        keep = sorted(rng.sample(range(len(post)), max_post))
+        post = [post[x] for x in keep]
+    return post
 
 
 def mk_case(cid, img, lazy, kind, ops, meta):
@@ -599,4 +678,16 @@ def classify(case, out):
         if w in TABLE_OPS:
             ks.append("op:" + w)
     ks.append("lazy" if " lazy=1" in case["lines"][1] else "eager")
+    # read-only table queries that ran (and returned) AFTER a mutating one on the same object
+    seen = set()
+    for ln, o in zip(case["lines"][2:], out[2:]):
+        w = ln.split()[0]
+        if not o or o.startswith("FAULT") or o == "null":
+            continue
+        if w in ("arrange", "swap"):
+            if seen:
+                ks.append("seq:mutation-after-mutation")
+            seen.add(w)
+        elif w in TABLE_OPS:
+            ks += ["seq:query-after-" + m for m in seen]
     return sorted(set(ks))
